@@ -72,3 +72,79 @@ Theorem C04_marshaler_output_native_refuted :
   exists ret, json_valid ret = false /\ encodeJsonMarshaler 0 (OOk ret) = Some (Some ret).
 Proof. exact marshaler_output_native_refuted. Qed.
 Print Assumptions C04_marshaler_output_native_refuted.
+
+(* ---- C04_wellformed for the proved fragment (scalars, strings, pointers, slices, arrays, []byte, structs without
+   options), every option word that leaves nil slices as null: Marshal stops with one strict RFC 8259 value, nested no
+   deeper than the state stack it used, and sonic's own validator (property C02's model of alg.Valid) accepts it.
+   The statement needs no hypothesis on the reference encoder: it is total on typed values of the fragment. *)
+From SV.Enc Require Import StdEnc TyLemmas Frag EncProofs WellFormed Finish Total WfMarshal.
+From SV.Json Require Grammar Fsm Wrappers.
+From Coq Require Import Lia.
+
+Theorem C04_wellformed_partial_jit : forall e co flg t v prog,
+  (0 < MaxInlineDepth co)%nat -> has_opts flg BitNoNullSliceOrMap = false ->
+  frag e t -> compilable e co t -> has_type (fok_wf prims_jit) t v ->
+  compile e co t (has_opts flg BitPointerValue) = COk prog -> (need v <= 4096)%nat ->
+  wf_outcome (encode prims_jit e co flg (Some (t, v))) v.
+Proof. exact marshal_wellformed_jit. Qed.
+Print Assumptions C04_wellformed_partial_jit.
+
+Theorem C04_wellformed_partial_vm : forall e co flg t v prog,
+  (0 < MaxInlineDepth co)%nat -> has_opts flg BitNoNullSliceOrMap = false ->
+  frag e t -> compilable e co t -> has_type (fok_wf prims_vm) t v ->
+  compile e co t (has_opts flg BitPointerValue) = COk prog -> (need v <= 4096)%nat ->
+  wf_outcome (encode prims_vm e co flg (Some (t, v))) v.
+Proof. exact marshal_wellformed_vm. Qed.
+Print Assumptions C04_wellformed_partial_vm.
+
+(* the pieces: the reference bytes are strict JSON; the reference is total; encodeFinish keeps strict JSON strict *)
+Theorem C04_reference_wellformed : forall e t, frag e t -> forall fuel v addr res, has_type fwf t v ->
+  std_enc e Qraw fuel t v addr false = SOk res -> Grammar.strict (need v) res.
+Proof. exact wellformed_frag. Qed.
+
+Theorem C04_reference_total : forall e (F : kind -> N -> option bytes -> Prop),
+  (forall k b txt, F k b txt -> exists t, txt = Some t) ->
+  forall t, frag e t -> forall v fuel addr, has_type F t v -> (need v < fuel)%nat ->
+  exists res, std_enc e Qraw fuel t v addr false = SOk res.
+Proof. exact std_total. Qed.
+
+Theorem C04_finish_preserves : forall flags d v, Grammar.strict d v -> Grammar.strict d (encode_finish flags v).
+Proof. exact encode_finish_strict. Qed.
+Print Assumptions C04_finish_preserves.
+
+(* non-vacuity: a struct with a float and a slice of strings holding '<' and U+2028, under ConfigStd's option word *)
+Definition c04_ex_ty : ty :=
+  TStruct 32 [(0%N, TPrim KFloat64); (8%N, TSlice (TPrim KString))]
+    [Field [102%N] 0 (TPrim KFloat64) [(0%N, false)]; Field [115%N] 0 (TSlice (TPrim KString)) [(8%N, false)]].
+Definition c04_ex_val : val :=
+  VStruct [VFloat 4609434218613702656 (Some [49; 46; 53]%N); VSlice (Some [VStr [60; 226; 128; 168]%N])].
+Definition c04_ex_out : bytes :=
+  [123; 34; 102; 34; 58; 49; 46; 53; 44; 34; 115; 34; 58; 91; 34; 92; 117; 48; 48; 51; 99; 92; 117; 50; 48; 50; 56; 34; 93; 125]%N.
+
+Example C04_wellformed_nonvacuous :
+  frag [] c04_ex_ty /\ compilable [] default_copts c04_ex_ty /\ has_type (fok_wf prims_jit) c04_ex_ty c04_ex_val /\
+  encode prims_jit [] default_copts std_flags (Some (c04_ex_ty, c04_ex_val)) = Done c04_ex_out /\
+  Fsm.Valid c04_ex_out = Fsm.Ok true.
+Proof.
+  assert (Hf : frag [] c04_ex_ty) by (cbn; repeat split; try lia; repeat constructor; eexists; repeat split; cbn; auto).
+  assert (Hc : compilable [] default_copts c04_ex_ty).
+  { cbn. split; [|repeat split]. intro pv. destruct pv; eexists; vm_compute; reflexivity. }
+  assert (Hv : has_type (fok_wf prims_jit) c04_ex_ty c04_ex_val).
+  { apply HT_struct; [reflexivity|]. intros k o t x Hk Hx. destruct k as [|[|k]]; cbn in Hk, Hx.
+    - injection Hk as <- <-. injection Hx as <-. apply HT_float; [right; reflexivity|]. split.
+      + eexists. split; [reflexivity|]. split; [intros _; split; reflexivity|intro H; discriminate H].
+      + intros t0 H. injection H as <-. left. exists [49%N], [46%N; 53%N], []. repeat split.
+        * right. exists 49%N, []. repeat split. discriminate.
+        * right. exists [53%N]. repeat split. discriminate.
+        * left. reflexivity.
+    - injection Hk as <- <-. injection Hx as <-. apply HT_slice. intros y [<-|[]]. apply HT_str.
+    - destruct k; discriminate Hk. }
+  assert (He : encode prims_jit [] default_copts std_flags (Some (c04_ex_ty, c04_ex_val)) = Done c04_ex_out) by (vm_compute; reflexivity).
+  split; [exact Hf|split; [exact Hc|split; [exact Hv|split; [exact He|]]]].
+  assert (Hw : wf_outcome (encode prims_jit [] default_copts std_flags (Some (c04_ex_ty, c04_ex_val))) c04_ex_val).
+  { destruct (compile [] default_copts c04_ex_ty (has_opts std_flags BitPointerValue)) as [prog|] eqn:Ec; [|vm_compute in Ec; discriminate Ec].
+    eapply C04_wellformed_partial_jit; try eassumption; try reflexivity; cbn; lia. }
+  rewrite He in Hw. destruct Hw as [(out & Ho & _ & Hval)|Ho]; [|discriminate Ho].
+  injection Ho as <-. apply Hval. cbn. lia.
+Qed.
+Print Assumptions C04_wellformed_nonvacuous.
